@@ -65,7 +65,7 @@ pub fn run(prop: &str, world: &World, sc: &Scenario, ctx: &mut RunCtx) {
         let inputs: BTreeSet<_> = world.input_contract_ids(spec).into_iter().collect();
         let deployed: BTreeSet<_> = world.contract_ids.iter().copied().filter(|c| !inputs.contains(c)).collect();
 
-        let mut access = AccessMonitor { inputs: inputs.clone(), deployed, foreign_ops: Default::default() };
+        let mut access = AccessMonitor { inputs: inputs.clone(), deployed, foreign_ops: Default::default(), known: known.clone() };
         let mut flow = FlowMonitor::default();
         let mut frames = FrameMonitor::default();
         let mut mem = MemMonitor::default();
